@@ -320,6 +320,13 @@ pub fn build(
         .as_ref()
         .map(|v| v.functions.iter().map(|f| f.name.clone()).collect())
         .unwrap_or_default();
+    // Names of the accessors the backend generates itself
+    if vftable.is_some() {
+        associated_functions_used_names.insert("vftable".to_string());
+    }
+    if singleton.is_some() {
+        associated_functions_used_names.insert("get".to_string());
+    }
     for (i, base_region) in regions.iter().filter(|r| r.is_base).enumerate() {
         // Inject all base associated functions into the type
         let Some((base_name, base_type)) = get_region_name_and_type_definition(
